@@ -54,6 +54,7 @@ def run(ctx):
     HR.check_reader_roles(ctx, ht, 'C03.3')
     check_completeness(ctx, ht, 'C03.1')
     check_sizes(ctx, ht, 'C03.4')
+    output_frame_counts(ctx, ht, 'C03.4')
     check_footer(ctx, ht, 'C03.5')
     ctx.rule('C03.9', 'the cropper states true dimensions: aligned bounds stay within the source axis on every path')
     from .c10 import alignment
@@ -441,6 +442,38 @@ def copies_version(ht, f):
 
 
 # ---------------------------------------------------------------------------
+def output_frame_counts(ctx, ht, rule):
+    """The fresh-header writer receives the SOURCE axes (parameters `ilines`, `xlines`) and the OUTPUT geometry (`geom`,
+    the conversion window).  Every inline / crossline count that reaches a count or size field (8:12, 12:16, 56:60,
+    60:64, 68:72) must be a count of the output geometry; `len(<source axis parameter>)` is the source frame."""
+    n = 0
+    for s in ht.stores:
+        if TB.header_buffers(ht.P, s.func).get(s.buf) != 'fresh':
+            continue
+        row, prob = ht.row_of(s)
+        if row is None:
+            continue
+        role = TB.role_of_row(row)
+        if role is None or role[0] not in ('COUNT', 'DATA_BLOCKS', 'HEADER_ARRAY_BYTES', 'TRACECOUNT') or role[1] == 'Z':
+            continue
+        f = s.func
+        axes_params = [p_ for p_ in f.params if p_ in ('ilines', 'xlines')]
+        if not axes_params:
+            continue
+        n += 1
+        chain = FT._def_chain(f, s.value)
+        bad = [c for e2 in chain for c in ast.walk(e2) if isinstance(c, ast.Call) and U(c.func) == 'len' and c.args and
+               isinstance(c.args[0], ast.Name) and c.args[0].id in axes_params]
+        if bad:
+            ctx.fail(rule, f, s.stmt, 'field %d:%d (%s) is computed from `%s`, the line count of the SOURCE file: with an '
+                     'inline/crossline window the header states the source size, not the size of the converted window '
+                     '(use the output geometry)' % (s.lo, s.hi, row.text[:30], U(bad[0])), key_extra='%d' % s.lo)
+        else:
+            ctx.ok(rule, f, 'field %d:%d' % (s.lo, s.hi), 'counts come from the output geometry')
+    if n < 4:
+        raise AnalysisError('fresh-header count / size fields: fewer than the 4 confirmed sites')
+
+
 UNIT_GATE = '0.1.6'
 
 
